@@ -6,6 +6,8 @@ package w06
 
 import (
 	"fmt"
+	"reflect"
+	"sort"
 	"strings"
 
 	"github.com/openconfig/goyang/pkg/yang"
@@ -127,11 +129,111 @@ func foreignPrefixUses(j *job.Job, s *job.Sink, c int64) {
 	}
 }
 
+// usesConstraints: the top-level nodes of a grouping state when, must, status and reference of
+// their own, and so do some of the uses statements. Every copy keeps what its definition
+// says (a copy is faithful in its constraints too) and gains what its uses says; a uses that
+// says nothing adds nothing.
+func usesConstraints(j *job.Job, s *job.Sink, c int64) {
+	r := prng.For(j.Seed, "C06", "uses-constraints", c)
+	kws := []string{"when", "must", "status", "reference"}
+	val := func(kw, who string) string {
+		switch kw {
+		case "status":
+			return map[string]string{"node": "deprecated", "uses": "obsolete"}[who]
+		case "reference":
+			return "ref of the " + who
+		}
+		return "../" + who + "-" + kw
+	}
+	own := map[string]bool{}
+	for _, kw := range kws {
+		own[kw] = r.Intn(2) == 0
+	}
+	var b strings.Builder
+	b.WriteString("module x { namespace \"urn:x\"; prefix x;\n  grouping g {\n    leaf l { type string;")
+	for _, kw := range kws {
+		if own[kw] {
+			fmt.Fprintf(&b, " %s %q;", kw, val(kw, "node"))
+		}
+	}
+	b.WriteString(" }\n    container k {")
+	for _, kw := range kws {
+		if own[kw] {
+			fmt.Fprintf(&b, " %s %q;", kw, val(kw, "node"))
+		}
+	}
+	b.WriteString(" leaf deep { type string; } }\n  }\n")
+	nu := 2 + r.Intn(3)
+	usesSays := make([]map[string]bool, nu)
+	for u := 0; u < nu; u++ {
+		usesSays[u] = map[string]bool{}
+		fmt.Fprintf(&b, "  container c%d { uses g", u)
+		var subs []string
+		for _, kw := range []string{"when", "status", "reference"} { // (a uses has no must)
+			if r.Intn(2) == 0 {
+				usesSays[u][kw] = true
+				subs = append(subs, fmt.Sprintf("%s %q;", kw, val(kw, "uses")))
+			}
+		}
+		if len(subs) > 0 {
+			fmt.Fprintf(&b, " { %s }", strings.Join(subs, " "))
+		} else {
+			b.WriteString(";")
+		}
+		b.WriteString(" }\n")
+	}
+	b.WriteString("}\n")
+	cs := map[string]string{"x.yang": b.String()}
+	s.Count("uses_constraint_cases", 1)
+	ms := yang.NewModules()
+	if err := ms.Parse(b.String(), "x.yang"); err != nil {
+		s.Violation(c, j.CaseID(c), "C06.independence", "unexpected-error", err.Error(), cs, nil)
+		return
+	}
+	if errs := ms.Process(); len(errs) > 0 {
+		s.Violation(c, j.CaseID(c), "C06.independence", "unexpected-error", errs[0].Error(), cs, nil)
+		return
+	}
+	root := yang.ToEntry(ms.Modules["x"])
+	for u := 0; u < nu; u++ {
+		for _, name := range []string{"l", "k"} {
+			e := root.Dir[fmt.Sprintf("c%d", u)].Dir[name]
+			for _, kw := range kws {
+				var got []string
+				for _, v := range e.Extra[kw] {
+					if n, ok := v.(yang.Node); ok && n != nil && !reflect.ValueOf(n).IsNil() {
+						got = append(got, n.NName())
+					} else {
+						got = append(got, fmt.Sprint(v))
+					}
+				}
+				var want []string
+				if own[kw] {
+					want = append(want, val(kw, "node"))
+				}
+				if usesSays[u][kw] {
+					want = append(want, val(kw, "uses"))
+				}
+				sort.Strings(got)
+				sort.Strings(want)
+				if strings.Join(got, " | ") != strings.Join(want, " | ") {
+					s.Violation(c, j.CaseID(c), "C06.independence", "copy-constraints", fmt.Sprintf("c%d/%s: the %s statements of the copy are %q, its definition and its uses say %q", u, name, kw, got, want), cs, map[string]any{"keyword": kw})
+					return
+				}
+			}
+		}
+	}
+	s.Count("instances_compared", int64(nu))
+}
+
 // Run generates cases.
 func Run(j *job.Job, s *job.Sink) {
 	for c := j.Start; c < j.Start+j.Count; c++ {
 		if c%8 == 0 {
 			usesExtensions(j, s, c)
+		}
+		if c%8 == 4 {
+			usesConstraints(j, s, c)
 		}
 		if c%8 == 1 {
 			foreignPrefixUses(j, s, c)
